@@ -1171,10 +1171,61 @@ def collect(ck, tier):
     ]
 
 
+def flavour_laws(ck, tier):
+    """R08.3: the code that runs under constant evaluation obeys the same operation laws.
+
+    The probe corpus is compiled to IR once more as C++2b WITHOUT the -U__cpp_if_consteval that the
+    other checks add: clang 14 then resolves libstdc++ 12's `if consteval` implementation of
+    std::is_constant_evaluated () to *true* when it emits code (a toolchain quirk, see DESIGN 10.2), so
+    the IR contains exactly the arms that the constant evaluator takes - heap_temporary instead of
+    stack_temporary, element-wise std::move / std::move_backward / std::fill instead of memmove /
+    memcpy, the heap block standing in for the inline buffer.  Nothing is evaluated: the operation
+    laws of C01 (size, returned position, element placement, copy direction) are decided on that IR
+    exactly as on the run-time IR; both flavours meeting the same specification is what makes their
+    results agree."""
+    from .. import corpus, irrules
+    C = corpus.Cfg
+    fl = ('SVP_CONSTANT_EVALUATION_FLAVOUR',)
+    cfgs = [C('NM', 2, 4, 'std', std='c++2b', defines=fl), C('int', 2, 4, 'std', std='c++2b', defines=fl)]
+    if tier == 'thorough':
+        cfgs += [C('NM', 0, 2, 'std', std='c++2b', defines=fl), C('TM', 4, 2, 'std', std='c++2b', defines=fl),
+                 C('int', 0, 3, 'std', std='c++2b', defines=fl), C('TR', 2, 4, 'std', std='c++2b', defines=fl),
+                 C('MO', 2, 2, 'std', std='c++2b', defines=fl), C('CO', 2, 2, 'std', std='c++2b', defines=fl)]
+    res = corpus.run_over(cfgs, 'svlib.rules.ir_laws', 'analyse_tu')
+    taken = 0
+    for r in res:
+        if not r['ok']:
+            continue
+        # the flavour must really contain the constant-evaluation arms: the heap temporary is one
+        taken += 1 if r['res'].get('flavour_marker') else 0
+        keep = []
+        for x in r['res']['reports']:
+            if x.rule == 'R03.7':
+                continue
+            x.rule = 'R08.3'
+            if not x.ok:
+                x.message = 'R08.3 (constant-evaluation arms) ' + x.message
+            keep.append(x)
+        r['res']['reports'] = keep
+    irrules.aggregate(ck, res)
+    ok = [r for r in res if r['ok']]
+    if taken < len(ok):
+        raise common.AnalysisBroken('C08 R08.3: the constant-evaluation flavour of the IR does not contain the arms guarded by '
+                                    'std::is_constant_evaluated () (toolchain behaviour changed?)')
+    ck.floor('path verdicts on the constant-evaluation arms (size / position / placement / direction)',
+             sum(r['res']['decided'] + r['res']['placed'] + r['res']['directions'] for r in ok), 1000 if tier == 'quick' else 4000)
+
+
 def run(tier):
     ck = common.Check('C08', tier, level='other')
     collect(ck, tier)
+    flavour_laws(ck, tier)
+    ck.assumptions += ['R08.3 relies on clang 14 + libstdc++ 12 emitting the `if consteval` arm of std::is_constant_evaluated () in '
+                       '-std=c++2b mode; the check verifies on every run that the IR it analyses contains the guarded arms']
     ck.finish(
+        'R08.3 the arms taken under constant evaluation (IR flavour in which std::is_constant_evaluated () is true) obey the same '
+        'operation laws as the run-time arms: size(), returned positions, where every element comes from, and the direction of '
+        'overlapping copies (rules of C01) - so constant evaluation and run time agree on those results; '
         'AST-level rules over the instantiated call graph of probe TUs (C++20, C++2b): R08.1 no '
         'function reachable from the public API contains, at a point reachable when '
         'std::is_constant_evaluated () is true, a non-constant construct or a call to such a function; '
